@@ -181,6 +181,15 @@ def handle (c : Option Case) (line : String) : Option Case × String :=
       (some { c with st := s1, sp := specAfterPoll c.sp op p }, renderPolled p ++ " | " ++ renderObs s1 nd ++ s!" wakes {c.wakes}")
     | none, _ => (c, "no-case")
     | _, none => (c, "bad-op")
+  | "pollwith" :: rest =>
+    -- `pollwith <op> :: <other stage's op>`: the other stage acts while the waker is being registered (engine wakeprobe)
+    let i := rest.idxOf "::"
+    match c, parseOp (rest.take i), parseOp (rest.drop (i + 1)) with
+    | some c, some op, some e =>
+      let (s1, p) := pollWith c.st op e
+      (some { c with st := s1 }, renderPolled p)
+    | none, _, _ => (c, "no-case")
+    | _, _, _ => (c, "bad-op")
   | "hold" :: r :: rest =>
     match c, parseRole r, parseOp rest with
     | some c, some r, some op =>
